@@ -89,6 +89,7 @@ type PairOpts struct {
 	Chunk    func(n int) int // stream API: chunk size chooser for writes (nil = whole)
 	NoLinkHooks bool
 	LinkDeadlineB time.Duration // > 0: side B's link context ends by DEADLINE after this long (instead of living until cancelled)
+	LinkCauseB    error         // non-nil: side B's link context carries this CAUSE (WithCancelCause, or WithTimeoutCause together with LinkDeadlineB)
 }
 
 type Pair[T any] struct {
@@ -180,6 +181,14 @@ func (p *Pair[T]) link(a, b *Side[T]) error {
 	b.Ctx, b.Cancel = context.WithCancel(context.Background())
 	if p.Opts.LinkDeadlineB > 0 {
 		b.Ctx, b.Cancel = context.WithTimeout(context.Background(), p.Opts.LinkDeadlineB)
+	}
+	if cause := p.Opts.LinkCauseB; cause != nil {
+		if p.Opts.LinkDeadlineB > 0 {
+			b.Ctx, b.Cancel = context.WithTimeoutCause(context.Background(), p.Opts.LinkDeadlineB, cause)
+		} else {
+			c, cancel := context.WithCancelCause(context.Background())
+			b.Ctx, b.Cancel = c, func() { cancel(cause) }
+		}
 	}
 	plan := p.Opts.Plan
 	switch p.Opts.API {
